@@ -132,7 +132,8 @@ def audit(prop, module, theorems):
     d = LEAN / ".audit"
     d.mkdir(exist_ok=True)
     f = d / f"Audit_{prop}.lean"
-    f.write_text(f"import {module}\n" + "\n".join(f"#print axioms {t}" for t in theorems) + "\n")
+    mods = [module] if isinstance(module, str) else list(module)
+    f.write_text("".join(f"import {m}\n" for m in mods) + "\n".join(f"#print axioms {t}" for t in theorems) + "\n")
     rc, out = sh(["lake", "env", "lean", str(f)], cwd=LEAN)
     ok, problems, axioms = [], [], {}
     for t in theorems:
@@ -249,14 +250,17 @@ def main():
         if any(fm.split(":")[0] in t for t in theorems):
             broken.append(f"translator obligation: {fm} (source no longer in the translatable subset)")
     ok_names, axioms = [], {}
+    extra = P.get("extra_modules", [])        # e.g. the obligations of the function translator (Proofs/GenFns.lean)
     if module:
-        okb, bad, log = lean_build([module])
+        okb, bad, log = lean_build([module] + extra)
         if not okb:
             broken += [f"proof obligation: {b}" for b in bad]
         else:
-            ok_names, problems, axioms = audit(prop, module, theorems)
+            ok_names, problems, axioms = audit(prop, [module] + extra, theorems)
             broken += problems
     forb = grep_forbidden(module)
+    for em in extra:
+        forb += [h for h in grep_forbidden(em) if h not in forb]
     if forb:
         broken += [f"forbidden construct: {h}" for h in forb]
 
